@@ -60,6 +60,16 @@ class World:
             hp = pc._get_hashed_path(hashed_grammar, path, cache_path=cache_path)
             w.tick()
             w.mtime[os.fspath(hp)] = w.clock
+        self._orig_utime = os.utime
+
+        def utime(p, times=None, **kw):
+            # a touch of a tracked file (source or pickle) moves its logical mtime like any other write of its metadata
+            w._orig_utime(p, times, **kw)
+            q = os.fspath(p)
+            if q in w.mtime and times is None:
+                w.tick()
+                w.mtime[q] = w.clock
+        os.utime = utime
         os.path.getmtime = getmtime
         pc._save_to_file_system = save
         pc._remove_cache_and_update_lock = lambda cache_path=None: None     # clean-up is C17's business
@@ -71,6 +81,7 @@ class World:
 
     def close(self):
         os.path.getmtime = self._orig_getmtime
+        os.utime = self._orig_utime
         self.pc._save_to_file_system = self._orig_save
         self.pc._CACHED_SIZE_TRIGGER = self._orig_trigger
         self.pc.parser_cache.clear()
@@ -165,6 +176,14 @@ def histories(length, seed, sample):
         else:
             rng = random.Random(seed * 31 + L)
             out += [[rng.choice(acts) for _ in range(L)] for _ in range(sample)]
+    # structured histories (longer than the exhaustive bound): a file is cached, changes, is parsed again in some other
+    # way (other cache directory / diff cache / no cache), is parsed again, the process restarts, and it is parsed once more
+    ps = [(op, 0, 0, ci) for op in 'CDN' for ci in (0, 1)]
+    for p1 in ps[:2] + ps[2:4]:
+        for p2 in ps:
+            for p3 in ps:
+                for p4 in ps[:4]:
+                    out.append([p1, ('W', 0, 0, 0), p2, p3, ('R', 0, 0, 0), p4])
     # histories without any parse are trivial
     return [h for h in out if any(a[0] in 'CDNZ' for a in h)], len(acts)
 
@@ -197,7 +216,8 @@ def main():
                scope=dict(max_length=a.length, actions=nacts, sample_per_length=a.sample, seed=a.seed),
                rule='every history of length <= L over %d actions (ops W T C D N R X Z x file x grammar version x cache '
                     'directory) while the number of histories of a length is <= %d, seeded samples of that size beyond; '
-                    'histories without a parse are dropped; each history is run with the in-memory GC trigger at its default (600) '
+                    'plus the 576 structured 6-step histories parse / write / parse / parse / restart / parse over (C D N) x (two cache directories); '
+                    'os.utime on a tracked file advances its logical mtime; histories without a parse are dropped; each history is run with the in-memory GC trigger at its default (600) '
                     'and at 1; all counted histories are distinct' % (nacts, a.sample),
                exhaustive=False)
     with open(a.out, 'w') as f:
